@@ -1,6 +1,68 @@
 """C09 — symbolic sign / monotonicity verdicts hold at every integer point of the box.
 
-WORK IN PROGRESS docstring (filled in at the end).
+Implementation under test: ``geq_leq_zero`` / ``diff_geq_leq_zero`` (with ``_compare_to_zero``,
+``partition_heaviside``, ``function_range``, ``ComparisonResult.__or__`` and the
+``MinMaxBase._is_connected`` patch) of make_tile_shapes.py.  Reference: mc/ref/signmono.py
+(exact ``Fraction`` evaluation of the formula at every integer point of the box).
+
+Phases (all bounded-exhaustive, no sampling):
+
+combine           every pair of the 4 verdicts through ``ComparisonResult.__or__``; the result's sign set
+                  must cover both operands' (the operator is dead code today, it is the documented combiner).
+minmax-construct  ``sympy.Max/Min(x, y)`` for every pair of depth<=1 terms over {a,b,1,2,3}, built while the
+                  module's ``_is_connected`` patch is installed, must equal max/min pointwise on [1,4]^2.
+harvested (a)     spec family (spec_family()): one matmul Einsum on examples/arches/simple.yaml and on a generated
+                  3-level arch with a 4-wide fanout and finite throughputs (needed for a Max in the latency and for
+                  >= 1000 partial tile shapes, the only path that hands energy/latency terms to the comparator),
+                  rank bounds {4,5,6,10,12}, energy+latency, imperfect factorisation off/on.  ``make_tile_shapes``
+                  runs on every template job with spies (module attributes rebound at run time, caches cleared per
+                  shard) on geq_leq_zero, diff_geq_leq_zero and _is_connected.  Every distinct captured
+                  (call, formula, symbol, box, flag, verdict) is judged on its real box (symbol, 1, rank bound):
+                  every integer point; at most 12 points per axis; boxes above 4096 points use a deterministic
+                  sub-grid (outcome class suffix ``|subgrid``).
+synthetic (b)     kinds in scope = constructor kinds seen in (a) in the same run (Add, Mul, reciprocal, ceiling, Max,
+                  Heaviside on the unchanged tree; Min is never handed to the comparator and is therefore skipped).
+                  quick: every tree of depth <= 2 over {a,b,1,2} plus depth-3 ``X op Y`` (X a step term:
+                  ceiling(quotient) / Max(leaf,leaf) / Heaviside(leaf +- leaf); Y a monomial; op in - *; both
+                  orders) over {a,b,1,2,3}, box hi=4.  thorough: depth <= 2 over {a,b,1,2,3} on every box
+                  lo=1, hi in {1..4} per symbol, depth 3 = every ``X op Y`` with X, Y in T2 (monomials, sums,
+                  step terms of depth <= 2), every binary op, hi in {2,3,4}.  Calls per (formula, box):
+                  sign, sign with terms_do_not_cross_zero=True, derivative per free symbol.
+
+Oracle: ">= 0" / "<= 0" / "= 0" must hold at every integer point; for a derivative verdict f must be
+non-decreasing / non-increasing / constant along the symbol on consecutive integers with the other symbols at
+every point of their boxes (and for step-free f the exact df/ds, by dual numbers, must have the sign at every
+integer point).  UNKNOWN is always fine; an exception is an outcome class ("exception:<Type>"), never a violation;
+flag=True verdicts are judged only if every sub-expression is single-signed on the box ("promise-false" otherwise).
+Violation families: ``<origin>/<check>/<step pattern>/<claimed verdict>`` e.g. ``synthetic/deriv-mono/sym*ceil(c/s)/eq0``.
+
+FINDINGS on the unchanged tree (all reproduced by replay; none exhibited by a harvested call of the spec family):
+ A  ceiling(x) is replaced by x before the analysis (_compare_to_zero l.206-210):
+    geq_leq_zero(ceiling(2/a) - 2/a, a in [1,4]) -> "= 0" (value 1/2 at a=4);
+    diff_geq_leq_zero(a*ceiling(3/a), a) -> "= 0" although f = 3,4,3,4.        families */ceil(*)/*, */sym*ceil(*)/*
+ B  partition_heaviside tries all-steps=1 and all-steps=0 only (l.143-146, 215-216):
+    diff_geq_leq_zero(Max(1/b, b-3), b in [1,2]) -> ">= 0" although f = 1, 1/2.              synthetic/deriv-mono/Max/*
+ C  sympy function_range with another free symbol returns Interval(x, y) with unordered endpoints and
+    .left/.right are trusted as min/max (l.262-268): geq_leq_zero(-a*b+a+b, [1,4]^2) -> ">= 0" (value -8 at (4,4));
+    geq_leq_zero((1-b)*(3-a)) -> "= 0".                                                       synthetic/sign/rational/*
+ D  with terms_do_not_cross_zero an inconclusive "may be < 0" becomes ALWAYS_LEQ (l.295-296, 300-301):
+    geq_leq_zero(Max(a,b) - a, [1,4]^2, True) -> "<= 0" (value 3 at (1,4)).                  synthetic/sign-tdncz/Max/leq0
+ E  _is_connected_cached swaps the operands for its second pass without swapping the (Max, Min) answer (l.85):
+    sympy.Max(3*a, a+2) is built as a+2, Max(2, 3-a) as 3-a.                                  minmax-construct/*
+ Also seen (outcome classes): AttributeError "'int' object has no attribute 'doit'" for d/da Max(a, b) and
+ geq_leq_zero(Heaviside(a-b)); TypeError for flag=True on Max(a,b)/(a-b); a few RecursionErrors.
+
+Mutation self-test (scratch copies /tmp/af-mut-c09/m*, removed afterwards).  Because the box was saturated (load
+> 300) the mutants were run single-process with this module's own bodies on a sub-family: harvest = simple-M6-KN4
+perfect, simple-M5-KN4 imperfect and every 8th template of pe-M4-KN4, pe-M12-KN12 perfect/imperfect (thr 1,1,1);
+synthetic = every 10th quick formula; minmax = every 3rd term.  New families relative to the unchanged tree:
+ m1 f_range.left/right swapped                        caught by (b) (synthetic/sign/rational/eq0 x91, ...); not by (a)
+ m2 min_check/max_check swapped                       caught by (b) (synthetic/sign/Max/leq0, sign/rational/eq0); not by (a)
+ m3 (ALWAYS_EQUAL_TO_ZERO | x) -> ALWAYS_EQUAL_TO_ZERO  caught by combine only (dead code for (a), (b))
+ m4 "not f <= 0" -> "not f >= 0" (lost sign flip)      caught by (a) harvested/sign/rational/eq0, harvested/deriv-mono/rational/eq0 and (b)
+ m5 flag path: min_f < 0 reported ">= 0"               caught by (b) synthetic/sign-tdncz/*/geq0; not by (a) (real flag=True factors are positive)
+ m6 final LEQ/GEQ answers swapped                      caught by (a) harvested/{sign,deriv-mono}/rational/{geq0,leq0} and (b)
+ m7 _is_connected_cached Max/Min swapped               caught by (a) harvested/minmax-connected/Min and minmax-construct
 """
 
 from __future__ import annotations
@@ -18,34 +80,44 @@ from mc.explorer import Result, pmap
 from mc.ref import signmono as R
 
 MANIFEST = {
-    "text": "every (formula, symbol, box) triple the mapper really passes to geq_leq_zero / diff_geq_leq_zero on a "
-            "family of small matmul specs, and every synthetic expression tree of bounded depth built from the "
-            "harvested constructor kinds over all boxes [1,hi], hi<=4, is re-evaluated in exact rationals at every "
-            "integer point of its box and the returned verdict is checked pointwise (monotonicity along the symbol "
-            "for derivative verdicts); right level because the comparator is a pure function of small symbolic inputs",
+    "text": "every (formula, symbol, box) triple the mapper really passes to geq_leq_zero / diff_geq_leq_zero (and every "
+            "Max/Min argument-dropping decision of the patched _is_connected) on a family of small matmul specs, and "
+            "every synthetic expression tree of the stated depth-bounded families built from the harvested constructor "
+            "kinds over boxes [1,hi], hi<=4, is re-evaluated in exact rationals at every integer point of its box and "
+            "the returned verdict is checked pointwise (monotonicity along the symbol for derivative verdicts); right "
+            "level because the comparator is a pure function of small symbolic inputs",
     "note": "trusted: python Fractions, the R-signmono evaluator; harvested boxes with more than 4096 points are "
-            "checked on a deterministic sub-grid; synthetic depth 3 is a typed sub-family, not all trees",
+            "checked on a deterministic sub-grid; synthetic depth 3 is a typed sub-family, not all trees; quick tier "
+            "uses the single box hi=4 and depth<=2 over {a,b,1,2}",
     "technique": "bounded exhaustive input enumeration (explicit-state) vs reference model",
 }
 
 RULE = (
     "harvested: every distinct (call, formula, symbol, box restricted to the formula's symbols, flag, verdict) captured "
-    "by spying geq_leq_zero/diff_geq_leq_zero during make_tile_shapes of every template job of the spec family; "
-    "synthetic: every distinct sympy expression of the stated tree families x every box x every call "
-    "(sign, sign with terms_do_not_cross_zero, derivative per free symbol); non-trivial = the comparator returned a "
-    "definite verdict (not unknown / exception) on a box with at least two integer points"
+    "by spying geq_leq_zero / diff_geq_leq_zero / MinMaxBase._is_connected during make_tile_shapes of every template "
+    "job of the spec family; synthetic: every distinct sympy expression of the stated tree families x every box x "
+    "every call (sign, sign with terms_do_not_cross_zero, derivative per free symbol); minmax-construct: every "
+    "Max/Min of two depth<=1 terms; combine: every pair of verdicts; non-trivial = the comparator returned a "
+    "definite verdict (not unknown / exception) on a box with at least two integer points (minmax-construct: an "
+    "argument was dropped; combine: two different verdicts)"
 )
 ASSUMPTIONS = [
     "python fractions.Fraction arithmetic; sympy Float leaves denote their exact binary rational",
     "R-signmono (mc/ref/signmono.py) is the specification of the value of a formula at an integer point",
+    "the box handed to the comparator is (symbol, 1, rank bound) per tile-shape symbol (SymbolRelations.make_bounds); "
+    "the property is demanded at every integer of it, not only at the divisors the mapper later enumerates",
     "a derivative verdict means: f is monotone (>=0: non-decreasing, <=0: non-increasing, =0: constant) along the "
     "symbol on consecutive integers of its box with the other symbols fixed at every point of theirs, and, for "
     "step-free formulas, the exact partial derivative has that sign at every integer point",
     "terms_do_not_cross_zero=True verdicts are checked only when every sub-expression of the formula is "
     "single-signed over the integer points of the box",
     "an exception raised by the comparator is an outcome class, not a verdict",
+    "a synthetic formula is in scope iff all its constructor kinds (Add, Mul, reciprocal power, ceiling, Max, Min, "
+    "Heaviside) occur in some formula captured by the harvest of the same run",
+    "sympy.Max/Min(x, y) built while the module's _is_connected patch is installed denotes the pointwise max/min",
     "spec family: single matmul Einsum on examples/arches/simple.yaml and a generated 3-level arch with a spatial "
-    "fanout; rank bounds from {2,4,5,6,12}; energy+latency; imperfect factorisation off and on",
+    "fanout and finite throughputs; rank bounds from {4,5,6,10,12} (thorough: also 2,7); energy+latency; imperfect "
+    "factorisation off and on",
 ]
 
 REPO = os.environ.get("VERIF_REPO", "/repo")
@@ -138,11 +210,8 @@ def spec_family(quick: bool):
         simple(4, 4, False)
         simple(4, 4, True)
         simple(6, 4, False, gb=64, thr=2)
-        simple(6, 4, True, gb=64, thr=2)
         simple(5, 4, True, gb=64, thr=2)
-        simple(12, 6, True, gb=128, thr=2)
         pe(4, 4, False, gb=256, rf=64)
-        pe(12, 12, True)
         pe(12, 12, False, thr=(1, 1, 1))
         pe(12, 12, True, thr=(1, 1, 1))
         pe(10, 10, True, thr=(1, 1, 1))
